@@ -225,7 +225,8 @@ class FuzzStage:
     kind = "atheris"
 
     def __init__(self, name, prop, jobs, runs, run, to_case, seeds=None, budget_s=None,
-                 max_len=4096):
+                 max_len=4096, tokens=None):
+        self.tokens = tokens or []
         self.name, self.prop, self.jobs, self.runs = name, prop, jobs, runs
         self.run, self.to_case, self.seeds = run, to_case, seeds
         self.budget_s = budget_s or {"quick": 60, "thorough": 600}
@@ -247,12 +248,19 @@ class FuzzStage:
                     with open(os.path.join(corpus, "seed%03d" % i), "wb") as f:
                         f.write(b)
             statsfile = os.path.join(wd, "stats.json")
+            dictfile = os.path.join(wd, "tokens.dict")
+            with open(dictfile, "w") as f:
+                for i, tok in enumerate(self.tokens):
+                    f.write('t%d="%s"\n' % (i, "".join(
+                        ch if 32 <= ord(ch) < 127 and ch not in '"\\' else "\\x%02x" % ord(ch)
+                        for ch in tok)))
             budget = self.budget_s[ctx.tier]
             cmd = [sys.executable, "-m", "vlib.fuzz", self.prop, mode, statsfile, corpus,
                    "-runs=%d" % self.runs[ctx.tier], "-seed=%d" % (ctx.seed % (2 ** 31 - 1) + 1),
                    "-artifact_prefix=" + os.path.join(wd, "crash-"), "-max_len=%d" % self.max_len,
                    "-max_total_time=%d" % max(5, int(budget * 0.8)), "-timeout=120",
-                   "-rss_limit_mb=4096", "-verbosity=1"]
+                   "-rss_limit_mb=4096", "-verbosity=1"] + (
+                       ["-dict=" + dictfile] if self.tokens else [])
             env = dict(os.environ, PYTHONPATH=VERIF + os.pathsep + os.environ.get("PYTHONPATH", ""))
             try:
                 pr = subprocess.run(cmd, cwd=VERIF, env=env, stdout=subprocess.PIPE,
